@@ -50,10 +50,14 @@ def execTableOp (st : DState) (env0 : Env) (name : String) (args : List String) 
   | "drain_fold", [k] => no <| resOut (Map.drain cfg (foldEnv env (nat! k) w) (if nat! k = 0 then w.t.items else nat! k) false w) elems w
   | "into_iter_fold", [k] => no <| resOut (Map.intoIter cfg (foldEnv env (nat! k) w) (if nat! k = 0 then w.t.items else nat! k) w) elems w
   | "iter", p :: rest =>
-    match iterObserveW cfg w.t (match rest with | ["iter_mut"] => .tableIterMut | ["values_mut"] => .tableIterMut | _ => .tableIter) (nat! p) with
+    match iterObserveW cfg w.t (match rest.head? with | some "iter_mut" => .tableIterMut | some "values_mut" => .tableIterMut | _ => .tableIter) (nat! p) with
     | .error f => ({ ret := s!"FAULT({f})", w := w }, true, none)
-    | .ok (pre, folded, rest, hints) =>
-      ({ ret := s!"pre={fmtNats (ix pre)} fold={fmtNats (ix folded)} rest={fmtNats (ix rest)} sh={fmtNats hints}", w := w },
+    | .ok (pre, folded, rest_, hints) =>
+      -- third argument `nth`: after the prefix, `nth` far past the end exhausts the iterator
+      if rest.length = 2 then
+        ({ ret := s!"pre={fmtNats (ix pre)} fold= rest= sh={fmtNats (hints ++ [0])}", w := w }, false, none)
+      else
+      ({ ret := s!"pre={fmtNats (ix pre)} fold={fmtNats (ix folded)} rest={fmtNats (ix rest_)} sh={fmtNats hints}", w := w },
        false, none)
   | "iter_hash", [k] =>
     match Table.iterHash cfg w.t (H (nat! k)) with
